@@ -47,7 +47,7 @@ type HarnessConf struct {
 	MaxPaths   int            `json:"max_paths,omitempty"`
 	Unwind     int            `json:"unwind,omitempty"`
 	Solver     string         `json:"solver,omitempty"`
-	Replay     string         `json:"replay,omitempty"` // "" = native, "engine" = engine-only (schedule / lock audits)
+	Replay     string         `json:"replay,omitempty"` // "" = native, "slow" = native in real time, "engine" = engine-only (schedule / lock audits)
 }
 
 type PropConf struct {
@@ -404,6 +404,13 @@ func cmdCheck(args []string) int {
 				// into; the counterexample is the engine's execution of the
 				// real code's SSA under its deterministic scheduler
 				verdict = "REPRODUCED (engine execution of the real code under the recorded schedule; not replayable natively) " + v.Label
+			} else if hconf.Replay == "slow" {
+				// the scenario consists of timers firing (10 s apart): a replay
+				// in milliseconds would "reproduce" any such failure trivially
+				verdict = rp.run1(hconf.Pkg, path, true)
+				if strings.HasPrefix(verdict, "REPRODUCED") {
+					verdict += " (in real time: timers waited for)"
+				}
 			} else {
 				verdict = rp.run(hconf.Pkg, path)
 			}
